@@ -1,18 +1,18 @@
 #!/bin/bash
-# vg_one.sh <prop-workload> <run seed>: one simulated run under valgrind memcheck
+# vg_one.sh <prop-workload> <run seed> [variant=vg] [max nodes=300000]: one simulated run under valgrind memcheck
 cd "$(dirname "$0")/.."
-prop="$1"; rs="$2"
-maxf=$(./build/vg/vsim --prop $prop --print "$rs" | awk -F'[ \t]' '/^op/ {if (NF>m) m=NF} END {print m+0}')
+prop="$1"; rs="$2"; V="${3:-vg}"; MAXN="${4:-300000}"
+maxf=$(./build/$V/vsim --prop $prop --print "$rs" | awk -F'[ \t]' '/^op/ {if (NF>m) m=NF} END {print m+0}')
 if [ "$maxf" -gt 780 ]; then echo "VG-SKIP $prop $rs"; exit 0; fi
 # memcheck costs about 50x: runs of more than 300k node visits (measured natively first) are left to the other variants
-nodes=$(./build/vg/vsim --prop $prop --show "$rs" 2>/dev/null | grep -o "nodes=[0-9]*" | head -1 | cut -d= -f2)
-if [ "${nodes:-0}" -gt 300000 ]; then echo "VG-SKIP $prop $rs"; exit 0; fi
-out=$(valgrind -q --error-exitcode=97 --trace-children=yes ./build/vg/vsim --prop $prop --show "$rs" 2>&1)
+nodes=$(./build/$V/vsim --prop $prop --show "$rs" 2>/dev/null | grep -o "nodes=[0-9]*" | head -1 | cut -d= -f2)
+if [ "${nodes:-0}" -gt "$MAXN" ]; then echo "VG-SKIP $prop $rs"; exit 0; fi
+out=$(valgrind -q --error-exitcode=97 --trace-children=yes ./build/$V/vsim --prop $prop --show "$rs" 2>&1)
 if echo "$out" | grep -q "uninitialised\|Invalid read\|Invalid write\|Invalid free\|Mismatched free"; then
   mkdir -p replays/C10
-  echo "$out" | grep -v "^op\|^cfg\|^fault" | head -80 > "replays/C10/valgrind_${prop}_$rs.txt"
+  echo "$out" | grep -v "^op\|^cfg\|^fault" | head -80 > "replays/C10/valgrind_${V}_${prop}_$rs.txt"
   echo "violation class=valgrind prop-workload=$prop seed=$rs"; echo "$out" | grep -A14 "uninitialised\|Invalid" | head -40
-  echo "VIOLATION property=C10 replay=$(pwd)/replays/C10/valgrind_${prop}_$rs.txt"
+  echo "VIOLATION property=C10 replay=$(pwd)/replays/C10/valgrind_${V}_${prop}_$rs.txt"
 else
   echo "VG-OK $prop $rs"
 fi
